@@ -1724,10 +1724,11 @@ fn extend_to_bits(v: &mut Vec<usize>, ty: &Type, bits: usize) {
         let old_size = v.len();
         v.resize(bits, 0);
         v.copy_within(0..old_size, bits - old_size);
+        // all the new high bits are copies of the sign bit (or 0 for unsigned values):
         if let Type::Signed(_) = ty {
-            v[0..old_size].fill(msb);
+            v[0..bits - old_size].fill(msb);
         } else {
-            v[0..old_size].fill(0);
+            v[0..bits - old_size].fill(0);
         }
     }
 }
